@@ -317,6 +317,16 @@ impl TransformerContext {
         self.config = config;
     }
 
+    /// A `<config>` element changes settings in mid-document. The random sequence goes on
+    /// from where it is, unless the element itself gives a seed.
+    pub fn update_config(&mut self, config: TransformConfig, reseed: bool) {
+        let rng = self.rng.clone();
+        self.set_config(config);
+        if !reseed {
+            self.rng = rng;
+        }
+    }
+
     pub fn set_events(&mut self, events: Vec<InputEvent>) {
         self.events = events;
     }
